@@ -74,6 +74,9 @@ def one_residue_bio():
     return bio
 
 
+BAD_CELLS = []
+
+
 def tie_decision(ctx: Ctx):
     from pdb2pqr import biomolecule as bm
 
@@ -134,6 +137,7 @@ def tie_decision(ctx: Ctx):
         # leftover-key warnings: two log records when the dictionary is not empty at the end + one per key
         if mp != acts:
             ctx.disagree("apply_pka_values(patches)", {"ff": ff, "resname": rn, "is_n_term": isn, "is_c_term": isc, "ph_vs_pka": rel, "keys": present}, str(mp), str(acts))
+            BAD_CELLS.append((ff, rn, isn, isc, rel, present))
         else:
             leftover = 0
             if "N" in present and not isn:
@@ -241,9 +245,9 @@ def total_charge(run):
     return sum(Decimal(repr(r.charge)) for r in run.biomolecule.residues)
 
 
-def gen_cell(rng):
-    grp = rng.choice(TITR + ["N+", "C-"])
-    pos = rng.choice(["N", "I", "C"]) if grp in TITR else ("N" if grp == "N+" else "C")
+def gen_cell(rng, grp=None, pos=None):
+    grp = grp or rng.choice(TITR + ["N+", "C-"])
+    pos = pos or (rng.choice(["N", "I", "C"]) if grp in TITR else ("N" if grp == "N+" else "C"))
     for _ in range(50):
         must = grp if grp in TITR else None
         _f, res = G.window(rng, rng.choice([3, 4, 5]), must_have=must)
@@ -264,8 +268,8 @@ def gen_cell(rng):
     return None
 
 
-def check_cell(ctx: Ctx, rng, ff):
-    cell = gen_cell(rng)
+def check_cell(ctx: Ctx, rng, ff, grp=None, pos=None, side=None):
+    cell = gen_cell(rng, grp, pos)
     if cell is None:
         return []
     grp, pos, res, ti = cell
@@ -273,7 +277,7 @@ def check_cell(ctx: Ctx, rng, ff):
     tres = res[ti]
     key = (grp, tres[0].resseq, "A")
     pka = round(rng.uniform(0.5, 13.5), 2)
-    side = rng.choice(["below", "above", "equal"])
+    side = side or rng.choice(["below", "above", "equal"])
     ph = {"below": max(0.0, pka - rng.choice([0.01, 0.5, 3])), "above": min(14.0, pka + rng.choice([0.01, 0.5, 3])), "equal": pka}[side]
     ph = round(ph, 2)
     # all other titratable groups keep their default state: pKa far on the default side
@@ -401,8 +405,24 @@ def run(ctx: Ctx):
         "(cells) peptide windows with each titratable group (ASP GLU HIS CYS TYR LYS ARG N+ C-) at N-terminal/internal/C-terminal position x six force fields x pH below/above/equal to a supplied pKa, "
         "with reference runs; (sweeps) pH sweeps of windows with random pKa tables; a case is (ff, group, position, side); distinct counts distinct tuples"
     )
+    del BAD_CELLS[:]
     tie_decision(ctx)
     seen = set()
+    # failing-input search: where the exhaustive decision tie disagrees, run real structures in exactly those cells
+    targeted = []
+    for ff, rn, isn, isc, rel, present in BAD_CELLS:
+        if ff in FFS and rn in TITR and "S" in present and not (isn and isc):
+            t = (ff, rn, "N" if isn else "C" if isc else "I", {"lt": "below", "eq": "equal", "gt": "above"}[rel])
+            if t not in targeted:
+                targeted.append(t)
+    for ff, rn, pos, side in targeted[:24]:
+        ctx.count("targeted-cells(after a tie disagreement)", f"{ff}:{rn}:{pos}:{side}")
+        for sig, msg, rp in check_cell(ctx, rng, ff, rn, pos, side):
+            k = tuple(sorted(sig.items()))
+            if k in seen:
+                continue
+            seen.add(k)
+            ctx.violate(sig, msg, rp)
     n_cells = ctx.scale(70, 4000)
     for ci in range(n_cells):
         ff = FFS[ci % len(FFS)]
